@@ -259,6 +259,10 @@ class OpenModel:
             pe = strip_ids(pe)
             if isinstance(pe, tuple) and pe[0] == "var" and v == "None":
                 out.add("var_none:%s_%s" % (pe[1], pe[2]))
+            elif isinstance(pe, tuple) and pe[0] == "field" and isinstance(pe[1], tuple) and pe[1] and pe[1][0] == "agg" and v == "None" \
+                    and field_assigned(self.g, self.P.live, pe[2]):
+                # loop-carried state kept in a field of a local struct value
+                out.add("var_none:%s" % pe[2])
         return out
 
     def _byte_pred(self, ckey):
@@ -295,12 +299,30 @@ class OpenModel:
         x, y = strip_ids(e[2]), strip_ids(e[3])
         truth_eq = (v == "true") == (e[1] == "Eq")
 
+        elems = [("okval", strip_ids(("call", cpath(self.g.term(n)), tuple(event_args(self.g, n))))) for n in self.chunk_next]
+
+        def core(z):
+            while isinstance(z, tuple) and z:
+                if z[0] == "cast":
+                    z = z[1]
+                elif z[0] == "field" and z[2] in ("0",):
+                    z = z[1]
+                elif z[0] == "call" and re.search(r"ChunkId::offset$", str(z[1])) and z[2]:
+                    z = z[2][0]
+                else:
+                    break
+            return z
+
         def is_chunk_id(z):
-            return any(contains(z, lambda w: w == ("okval", strip_ids(("call", cpath(self.g.term(n)), tuple(event_args(self.g, n))))))
-                       for n in self.chunk_next)
+            # the id of the chunk of this iteration (or its offset), not merely something computed from it
+            return core(z) in elems or (contains(z, lambda w: w in elems) and not contains(z, lambda w: isinstance(w, tuple) and w and w[0] in ("call",)
+                                                                                           and not re.search(r"ChunkId::offset$|Iterator>?::next$|enumerate$|into_iter$|iter$|Vec::new$|copied$|cloned$", str(w[1]))))
 
         def is_prev(z):
-            return contains(z, lambda w: isinstance(w, tuple) and w and w[0] == "var")
+            # the value carried from the previous iteration: a loop variable, or a field of a local struct value that the loop assigns
+            return contains(z, lambda w: isinstance(w, tuple) and w and (w[0] == "var" or (
+                w[0] == "field" and isinstance(w[2], str) and isinstance(w[1], tuple) and w[1] and w[1][0] == "agg"
+                and field_assigned(self.g, self.P.live, w[2]))))
         if (is_chunk_id(x) and is_prev(y)) or (is_chunk_id(y) and is_prev(x)):
             return truth_eq
         return None
